@@ -13,13 +13,13 @@ namespace Resume
 open Mon
 variable {α σ : Type} [DecidableEq α] [DecidableEq σ]
 
-theorem inv08_runFrom {c : Conn α} (hw : Inv c) (h : Inv08 c) (hs : c.cfg.hasStore = true) (ls : List (Label α))
-    (hsc : InScopeRun c ls) : Inv08 (run c ls) := by
+theorem inv08_runFrom {c : Conn α} (hw : Inv c) (h : Inv08 c) (hs : c.cfg.hasStore = true) (hps : PendScope c) (ls : List (Label α))
+    (hsc : InScopeRun c ls) : Inv08 (run c ls) ∧ PendScope (run c ls) := by
   induction ls generalizing c with
-  | nil => exact h
+  | nil => exact ⟨h, hps⟩
   | cons l t ih =>
     simp only [run, List.foldl_cons]
-    exact ih (inv_step hw l) (inv08_step hw h hs l hsc.1) (by rw [step_cfg]; exact hs) hsc.2
+    exact ih (inv_step hw l) (inv08_step hw h hs l hsc.1 hps) (by rw [step_cfg]; exact hs) (pendScope_step hps l hsc.1) hsc.2
 
 theorem run_cfg' (c : Conn α) (ls : List (Label α)) : (run c ls).cfg = c.cfg := by
   induction ls generalizing c with
@@ -39,20 +39,20 @@ def GroupsOK08 : Conn α → List (List (Label α)) → Prop
   | c, g :: gs => InScopeRun c g ∧ RecFacts (originOfGroup g) c (run c g) ∧ GroupsOK08 (run c g) gs
 
 theorem accepts_groups_from (prov : α → Prov σ) (sn : σ) : ∀ (gs : List (List (Label α))) (c : Conn α) (m : MonS σ α),
-    Inv c → Inv08 c → InvK c → InvP c → c.cfg.hasStore = true → MonRel08 sn m c → GroupsOK08 c gs →
+    Inv c → Inv08 c → InvK c → InvP c → PendScope c → c.cfg.hasStore = true → MonRel08 sn m c → GroupsOK08 c gs →
     (runV prov m (traceOf sn c gs)).2.v08 = none := by
   intro gs
   induction gs with
-  | nil => intro c m _ _ _ _ _ _ _; rfl
+  | nil => intro c m _ _ _ _ _ _ _ _; rfl
   | cons g t ih =>
-    intro c m hw h8 hk hp hst hm hok
+    intro c m hw h8 hk hp hps hst hm hok
     obtain ⟨hsc, hf, hrest⟩ := hok
     have hw' := inv_runFrom hw g
-    have h8' := inv08_runFrom hw h8 hst g hsc
+    obtain ⟨h8', hps'⟩ := inv08_runFrom hw h8 hst hps g hsc
     have hk' := invK_runFrom hw hk g
     have hp' := invP_runFrom hw hp g
     obtain ⟨v, hm'⟩ := record_ok08 prov hst hw' h8' hk' hp' (purged_mono_run c g) (grow_run hw g) hf hm
-    have := ih (run c g) _ hw' h8' hk' hp' (by rw [run_cfg']; exact hst) hm' hrest
+    have := ih (run c g) _ hw' h8' hk' hp' hps' (by rw [run_cfg']; exact hst) hm' hrest
     simp only [traceOf, runV, foldV] at this ⊢
     simp [Viol.or, v, this]
 
@@ -60,7 +60,7 @@ theorem accepts_groups_from (prov : α → Prov σ) (sn : σ) : ∀ (gs : List (
 theorem monitorC08_accepts_groups (cfg : Cfg) (hst : cfg.hasStore = true) (sn : σ) (prov : α → Prov σ)
     (gs : List (List (Label α))) (hok : GroupsOK08 (init cfg : Conn α) gs) :
     (runV prov (Mon.init cfg.hasStore cfg.jsonResponse) (traceOf sn (init cfg) gs)).2.v08 = none :=
-  accepts_groups_from prov sn gs (init cfg) _ (inv_init cfg) (inv08_init cfg) (invK_init cfg) (invP_init cfg) hst (monRel08_init cfg sn) hok
+  accepts_groups_from prov sn gs (init cfg) _ (inv_init cfg) (inv08_init cfg) (invK_init cfg) (invP_init cfg) (pendScope_init cfg) hst (monRel08_init cfg sn) hok
 
 /-! ### one record per label -/
 
@@ -71,17 +71,17 @@ def ObsScopeRun : Conn α → List (Label α) → Prop
 theorem originOfGroup_single (l : Label α) : originOfGroup [l] = originOfLabel l := by
   cases l <;> rfl
 
-theorem groupsOK_singletons : ∀ (ls : List (Label α)) (c : Conn α), Inv c → Inv08 c → c.cfg.hasStore = true →
+theorem groupsOK_singletons : ∀ (ls : List (Label α)) (c : Conn α), Inv c → Inv08 c → PendScope c → c.cfg.hasStore = true →
     ObsScopeRun c ls → GroupsOK08 c (ls.map fun l => [l]) := by
   intro ls
   induction ls with
-  | nil => intro _ _ _ _ _; trivial
+  | nil => intro _ _ _ _ _ _; trivial
   | cons l t ih =>
-    intro c hw h8 hst hsc
+    intro c hw h8 hps hst hsc
     refine ⟨⟨hsc.1.1, trivial⟩, ?_, ?_⟩
     · rw [originOfGroup_single]
       exact recFacts_step hw h8 hst l hsc.1
-    · exact ih (step c l) (inv_step hw l) (inv08_step hw h8 hst l hsc.1.1) (by rw [step_cfg]; exact hst) hsc.2
+    · exact ih (step c l) (inv_step hw l) (inv08_step hw h8 hst l hsc.1.1 hps) (pendScope_step hps l hsc.1.1) (by rw [step_cfg]; exact hst) hsc.2
 
 /-! ### without an event store the C08 monitor is silent -/
 
@@ -173,7 +173,7 @@ theorem monitor_accepts_model_C08 (cfg : Cfg) (sn : σ) (prov : α → Prov σ) 
   | false => exact runV_nostore prov _ _ rfl
   | true =>
     have := monitorC08_accepts_groups cfg hst sn prov (ls.map fun l => [l])
-      (groupsOK_singletons ls (init cfg) (inv_init cfg) (inv08_init cfg) hst hsc)
+      (groupsOK_singletons ls (init cfg) (inv_init cfg) (inv08_init cfg) (pendScope_init cfg) hst hsc)
     rw [hst] at this
     exact this
 
